@@ -218,3 +218,81 @@ Section Sound.
     cbn [app] in G. apply G; [exact Hc|exact Hy|]. unfold flagged in Hf. exact Hf.
   Qed.
 End Sound.
+
+(* ================================================================== *)
+(* check_c03_disk                                                       *)
+(* ================================================================== *)
+Section Sound03.
+  Variable rn : name.
+  Variable pre post : node.
+
+  Notation guard_unknown := (guard_unknown rn pre post).
+
+  Lemma guard_unknown_dir : forall p ec,
+    guard_unknown p (EDir ec) =
+    match get (rn :: p) pre with
+    | Some (NDir _ cs) =>
+      forallb (fun ny => match lookup (fst ny) ec with
+                         | Some _ => true
+                         | None => untouched3 rn pre post (p ++ [fst ny])
+                         end) cs &&
+      forallb (fun ne => guard_unknown (p ++ [fst ne]) (snd ne)) ec
+    | _ => true
+    end.
+  Proof.
+    intros p ec. cbn [TransitionCheck.guard_unknown].
+    destruct (get (rn :: p) pre) as [[m cs| | |]|]; try reflexivity. f_equal.
+    induction ec as [|[n e] t IH]; [reflexivity|]. cbn [forallb fst snd]. rewrite <- IH. reflexivity.
+  Qed.
+
+  Lemma path_split3 : forall (top q0 r : path), rn :: top ++ q0 ++ r = (rn :: top ++ q0) ++ r.
+  Proof. intros. cbn. rewrite app_assoc. reflexivity. Qed.
+
+  Lemma guard_unknown_sound : forall q top q0 e ec n m cs y,
+    guard_unknown (top ++ q0) e = true ->
+    expect_at e q = Some (EDir ec) -> lookup n ec = None ->
+    get (rn :: top ++ q0 ++ q) pre = Some (NDir m cs) -> nlookup n cs = Some y ->
+    get (rn :: top ++ q0 ++ q ++ [n]) post = Some y.
+  Proof.
+    induction q as [|k q IH]; intros top q0 e ec n m cs y Hg He Ln Hd Hy.
+    - cbn in He. injection He as ->. rewrite app_nil_r in Hd. rewrite guard_unknown_dir, Hd in Hg.
+      apply andb_true_iff in Hg. destruct Hg as [Hu _]. rewrite forallb_forall in Hu.
+      specialize (Hu (n, y) (nlookup_some_in _ _ _ Hy)). cbn [fst] in Hu. rewrite Ln in Hu.
+      unfold untouched3 in Hu. apply onode_eqb_eq in Hu. cbn [app].
+      rewrite <- app_assoc in Hu. rewrite Hu.
+      rewrite (path_split3 top q0 [n]), get_app, Hd. cbn. rewrite Hy. reflexivity.
+    - cbn in He. destruct e as [ec0| | | | |]; try discriminate.
+      destruct (lookup k ec0) as [e1|] eqn:Lk; [|discriminate].
+      rewrite guard_unknown_dir in Hg.
+      assert (exists m0 cs0, get (rn :: top ++ q0) pre = Some (NDir m0 cs0)) as (m0 & cs0 & Hd0).
+      { rewrite (path_split3 top q0 (k :: q)), get_app in Hd.
+        destruct (get (rn :: top ++ q0) pre) as [[m0 cs0| | |]|]; try discriminate.
+        exists m0, cs0. reflexivity. }
+      rewrite Hd0 in Hg. apply andb_true_iff in Hg. destruct Hg as [_ Hall].
+      rewrite forallb_forall in Hall. specialize (Hall (k, e1) (lookup_some_in _ _ _ Lk)).
+      cbn [fst snd] in Hall. rewrite <- app_assoc in Hall.
+      assert (q0 ++ k :: q = (q0 ++ [k]) ++ q) as Eq by (rewrite <- app_assoc; reflexivity).
+      assert (q0 ++ (k :: q) ++ [n] = (q0 ++ [k]) ++ q ++ [n]) as Eq2 by (rewrite <- !app_assoc; reflexivity).
+      rewrite Eq2. apply (IH top (q0 ++ [k]) e1 ec n m cs y Hall He Ln); [|exact Hy].
+      rewrite <- Eq. exact Hd.
+  Qed.
+
+  Definition c03_disk_spec (plan : list change) : Prop :=
+    forall c, In c plan ->
+      (cold c = None -> forall y, get (rn :: cpath c) pre = Some y -> get (rn :: cpath c) post = Some y) /\
+      (forall e0 q n ec m cs y, cold c = Some e0 -> expect_at e0 q = Some (EDir ec) ->
+         lookup n ec = None -> get (rn :: cpath c ++ q) pre = Some (NDir m cs) -> nlookup n cs = Some y ->
+         get (rn :: cpath c ++ q ++ [n]) post = Some y).
+
+  Theorem check_c03_disk_sound : forall plan,
+    check_c03_disk rn pre post plan = true -> c03_disk_spec plan.
+  Proof.
+    intros plan Hc c Hin. unfold check_c03_disk in Hc. rewrite forallb_forall in Hc.
+    specialize (Hc c Hin). split.
+    - intros CO y Hy. rewrite CO, Hy in Hc. unfold untouched3 in Hc. apply onode_eqb_eq in Hc.
+      rewrite Hc. exact Hy.
+    - intros e0 q n ec m cs y CO He Ln Hd Hy. rewrite CO in Hc.
+      pose proof (guard_unknown_sound q (cpath c) [] e0 ec n m cs y) as G.
+      rewrite app_nil_r in G. cbn [app] in G. apply G; assumption.
+  Qed.
+End Sound03.
